@@ -51,7 +51,7 @@ func gen(rt *rapid.T) any {
 	if r.Prog.Corpus == "" {
 		r.Prog.ForceImports = gencommon.ForceImports(rt)
 	}
-	r.Front = gencommon.Front(rt, gencommon.FrontSpec{Faults: []string{"discard_ref", "discard_reset", "abort_stmt"}, MaxFaults: 3, Constructs: []string{"inline_closure", "bigint_op", "unit_lit", "unsafe_ref", "bti_call"}, FileAssign: true, Writes: true})
+	r.Front = gencommon.Front(rt, gencommon.FrontSpec{Faults: []string{"discard_ref", "discard_reset", "abort_stmt"}, MaxFaults: 3, Constructs: []string{"inline_closure", "bigint_op", "unit_lit", "unsafe_ref", "bti_call", "generic_decl"}, FileAssign: true, Writes: true})
 	r.MapDflt = rapid.IntRange(0, 23).Draw(rt, "mapdflt")
 	n := rapid.IntRange(0, 6).Draw(rt, "nmo")
 	for i := 0; i < n; i++ {
